@@ -670,7 +670,9 @@ impl LoongArch64Instruction {
                 const CLEAR: u64 = (0xFC00_03FF_u64 << 32) | 0xFE00_001F_u64;
                 and_from_slice(dest, &CLEAR.to_le_bytes());
                 let low_part = (extracted_value & 0xffff) << (32 + 10);
-                let high_part = ((extracted_value + 0x8000) >> 16) << 5;
+                // pcaddu18i takes si20: a carry out of bit 19 (small negative offsets) must not spill
+                // into bit 25 of the instruction.
+                let high_part = (((extracted_value + 0x8000) >> 16) & 0xf_ffff) << 5;
                 or_from_slice(dest, &(low_part | high_part).to_le_bytes());
             }
         };
